@@ -33,7 +33,7 @@ BOUND = {
 EXHAUSTIVE = {"quick": True, "thorough": True}
 ASSUMPTIONS = [
     "shapes from the stated dimension alphabet, not all of 1..4096^3 (A3)",
-    "norm/bias parameters under SGD-with-output-scaled-readout are 1-D (the statement's 'length')",
+    "for multi-dimensional bias / norm parameters under SGD with an output-scaled readout 'length' is read as len(param) = shape[0]",
     "float lr compared to 1e-13 relative, float32 tensor lr to 3e-7, float64 tensor lr to 1e-13",
 ]
 
@@ -65,7 +65,7 @@ def expected_sq(rule: str, tag: str, shape: Tuple[int, ...], depth: Optional[int
                 return "error"
             sq = Fraction(f)
         elif tag in ("bias", "norm"):
-            sq = Fraction(shape[0] ** 2)
+            sq = Fraction(shape[0] ** 2)  # "length" = len(param), also for multi-dim gains (LayerNorm([8, 32]))
         else:
             sq = Fraction(1)
     if depth is not None:
@@ -166,8 +166,6 @@ def run_case(case: Dict[str, Any]) -> Dict[str, Any]:
             combos = [(s, d) for s in sh for d in range(case["d0"], case["d1"])]
         n = nt = 0
         for shape, depth in combos:
-            if rule == "sgd_out" and tag in ("bias", "norm") and len(shape) != 1:
-                continue
             n += 1
             want = expected_sq(rule, tag, shape, depth)
             p = _mk(shape, tag, depth)
@@ -219,6 +217,24 @@ def run_case(case: Dict[str, Any]) -> Dict[str, Any]:
                 except ValueError:
                     if allow:
                         viol.append({"key": f"E|{e}|untagged_rejected_when_allowed", "msg": f"shape={shape}"})
+        # frozen (requires_grad=False) parameters are parameters like any other
+        n += 2
+        fz = _mk((3, 5), "weight", 4)
+        fz.requires_grad_(False)
+        try:
+            groups = _call(e, [fz, _mk((2, 2), "weight", None)], 0.25, False)
+            want = 0.25 * math.sqrt(expected_sq(_rule_of(e), "weight", (3, 5), 4))
+            if len(groups) != 2 or groups[0]["params"][0] is not fz or not _lr_close(groups[0]["lr"], want, "float"):
+                viol.append({"key": f"E|{e}|frozen_tagged_not_scaled", "msg": f"groups={[(tuple(g['params'][0].shape), float(g['lr'])) for g in groups]}"})
+        except Exception as ex:  # noqa
+            viol.append({"key": f"E|{e}|frozen_tagged_rejected", "msg": str(ex)[:200]})
+        fu = _mk((3, 5), None, None)
+        fu.requires_grad_(False)
+        try:
+            _call(e, [_mk((2, 2), "weight", None), fu], 0.25, False)
+            viol.append({"key": f"E|{e}|frozen_untagged_accepted", "msg": ""})
+        except ValueError:
+            pass
         # untagged parameters sharing an explicit group with tagged ones (both orders)
         for order in ("tagged_first", "untagged_first", "sandwich"):
             t1, t2 = _mk((3, 5), "weight", None), _mk((7, 2), "weight", 4)
